@@ -3,12 +3,12 @@ package leanhelix
 import (
 	"context"
 	"github.com/orbs-network/govnr"
+	"github.com/orbs-network/lean-helix-go/services/blockproof"
 	"github.com/orbs-network/lean-helix-go/services/electiontrigger"
 	"github.com/orbs-network/lean-helix-go/services/interfaces"
 	L "github.com/orbs-network/lean-helix-go/services/logger"
 	"github.com/orbs-network/lean-helix-go/services/termincommittee"
 	"github.com/orbs-network/lean-helix-go/spec/types/go/primitives"
-	"github.com/orbs-network/lean-helix-go/spec/types/go/protocol"
 	"github.com/orbs-network/lean-helix-go/state"
 	"github.com/orbs-network/scribe/log"
 	"github.com/pkg/errors"
@@ -232,7 +232,10 @@ func GetMemberIdsFromBlockProof(blockProofBytes []byte) ([]primitives.MemberId, 
 	if blockProofBytes == nil || len(blockProofBytes) == 0 {
 		return nil, errors.Errorf("GetMemberIdsFromBlockProof: nil blockProof - cannot deduce members locally")
 	}
-	blockProof := protocol.BlockProofReader(blockProofBytes)
+	blockProof, err := blockproof.ReadBlockProof(blockProofBytes)
+	if err != nil {
+		return nil, errors.Wrap(err, "GetMemberIdsFromBlockProof")
+	}
 	sendersIterator := blockProof.NodesIterator()
 	committeeMembers := make([]primitives.MemberId, 0)
 	for sendersIterator.HasNext() {
